@@ -70,16 +70,20 @@ structure Enc where
   fiRev : List Seg := []       -- A_FILE_INFO, newest first
   names : List (Nat × String) := []   -- file id -> name (add_program_file)
   psize : Nat := 0             -- program_size as stored (unsigned short)
+  initLine : Int := 0          -- init_line_being_generated
+  initRev : List (Int × Int) := []    -- A_INIT_LINES (line, offset in A_INITIALIZER), newest first
 deriving Repr
 
 def Enc.li (st : Enc) : List Run := st.liRev.reverse
 def Enc.fi (st : Enc) : List Seg := st.fiRev.reverse
 
 /-- `switch_to_line (line)` called when the code generator is at address `cur` of block `block`.
-    `if (current_block != A_PROGRAM) return;` — code of other blocks (the variable initialiser) gets no runs and
-    does not even update `line_being_generated`. -/
+    Code of the variable initialiser block is moved to the end of the program later, so for `A_INITIALIZER` only the
+    start of each new line is noted (`A_INIT_LINES`); other blocks are ignored (`if (current_block != A_PROGRAM) return;`). -/
 def switchToLine (st : Enc) (line : Int) (cur : Int) (block : Nat) : Enc :=
-  if block ≠ aProgram then st else
+  if block = aInitializer then
+    (if line ≠ st.initLine then { st with initRev := (line, cur) :: st.initRev, initLine := line } else st)
+  else if block ≠ aProgram then st else
   let sz := cur - st.lastSize
   let st1 : Enc :=
     if sz = 0 then st else
@@ -87,6 +91,11 @@ def switchToLine (st : Enc) (line : Int) (cur : Int) (block : Nat) : Enc :=
       let runs := if sz > 0 then runsOf sz.toNat s else [⟨u8 sz, s⟩]
       { st with lastSize := st.lastSize + sz, liRev := runs.reverse ++ st.liRev }
   { st1 with lineBeing := line }
+
+/-- `i_generate___INIT`: the initialiser block has been appended at `base`; visit the start of every noted line the
+    way the code generator would have (`prog_code = base + offset; switch_to_line (line)`) -/
+def placeInit (st : Enc) (base : Int) : Enc :=
+  st.initRev.reverse.foldl (fun st e => switchToLine st e.1 (base + e.2) aProgram) st
 
 /-- `save_file_info (file_id, lines)`: both values are stored through a `short` -/
 def saveFileInfo (st : Enc) (fileId : Int) (lines : Int) : Enc :=
@@ -99,6 +108,7 @@ inductive CEv where
   | fi (fileId : Int) (lines : Int)
   | addFile (fileId : Nat) (name : String)
   | init (base : Nat) (size : Nat)
+  | replay (line : Int) (addr : Int)     -- a switch_to_line call made by i_generate___INIT (already modelled by `init`)
   | fin (psize : Int)
 deriving Repr
 
@@ -107,7 +117,8 @@ def encStep (st : Enc) : CEv → Enc
   | .sw l a b => switchToLine st l a b
   | .fi f n => saveFileInfo st f n
   | .addFile f nm => { st with names := st.names ++ [(f, nm)] }
-  | .init _ _ => st
+  | .init base _ => placeInit st base
+  | .replay _ _ => st
   | .fin p => { st with psize := u16 p }
 
 def encRun (evs : List CEv) : Enc := evs.foldl encStep {}
